@@ -1,4 +1,5 @@
 import OdakModel.Generated.Effects
+import OdakModel.Generated.StateCensus
 import OdakProofs.Lemmas.HeapSound
 
 /-! # C20 – library calls never modify the caller's arrays, lists or default arguments
@@ -62,5 +63,96 @@ theorem C20_clean_functions_never_modify_arguments (f : FnId) (k : Nat) (rv : Va
 
 /-- non-vacuity: the table is not empty and contains clean functions (function 0 has an empty summary) -/
 example : effectsFunctionCount > 400 ∧ effectsSigma 0 = [] := by decide
+
+
+/-! ## Where state can persist between two calls (regenerated census, `translate/statecensus.py`)
+
+The effect analysis above covers state that travels in ARGUMENTS.  The consequent of C20 - "a second call with the same arguments returns the same
+result", for all call sequences - can also fail through state the LIBRARY keeps: a module-level cache, a memoising decorator, a `global`, a mutable
+class attribute, an attribute of `self` written by a method other than the constructor.  `Gen.moduleState` / `Gen.instanceState` are regenerated
+from the whole source tree on every run; the theorems below state that they are exactly the reviewed tables, whose entries carry the reason why
+they do not make a result depend on the history (a theorem of C06 / C17 where there is one).  A new cache changes the regenerated table and breaks
+the theorem; the check then looks for a concrete history (probes (i)-(vi) of the C20 harness). -/
+
+/-- (file, name, kind, why it does not make results depend on the history) -/
+def reviewedModuleState : List (String × String × String × String) := [
+  ("__init__", "__version__", "module-level call:'.'.join", "a string built once at import"),
+  ("visualize.blender.libblend", "bpy.*", "attributes stored on an imported third-party module (21)", "Blender scene configuration / job queue of the Blender server: outside the numerical library, needs Blender to run"),
+  ("visualize.blender.server", "execution_queue", "module-level call:queue.Queue", "Blender scene configuration / job queue of the Blender server: outside the numerical library, needs Blender to run")
+]
+
+/-- (file:class, attribute, method that stores it, why) -/
+def reviewedInstanceState : List (String × String × String × String) := [
+  ("catalog.detectors:plane_detector", "field", "raytrace", "the detector stores the field / figure it produced, by design"),
+  ("catalog.detectors:plane_detector", "fig", "plot_field", "the detector stores the field / figure it produced, by design"),
+  ("learn.lensless.models:spec_track", "optimizer", "fit", "training state of a learned model (fit loop)"),
+  ("learn.lensless.models:spec_track", "train_history", "fit", "training state of a learned model (fit loop)"),
+  ("learn.lensless.models:spec_track", "validation_history", "fit", "training state of a learned model (fit loop)"),
+  ("learn.perception.blur_loss:BlurLoss", "blur", "blur_image", "lazily built blur object, proved transparent: C17_gen_blur_loss_history_independent"),
+  ("learn.perception.blur_loss:BlurLoss", "device", "to", "explicit device move requested by the caller"),
+  ("learn.perception.metamer_mse_loss:MetamerMSELoss", "metameric_loss", "to", "explicit device move requested by the caller"),
+  ("learn.perception.metamer_mse_loss:MetamerMSELoss", "target", "__call__", "keyed cache of the target metamer, proved transparent: C17_gen_metamer_mse_history_independent"),
+  ("learn.perception.metamer_mse_loss:MetamerMSELoss", "target_gaze", "__call__", "keyed cache of the target metamer, proved transparent: C17_gen_metamer_mse_history_independent"),
+  ("learn.perception.metamer_mse_loss:MetamerMSELoss", "target_metamer", "__call__", "keyed cache of the target metamer, proved transparent: C17_gen_metamer_mse_history_independent"),
+  ("learn.perception.metameric_loss:MetamericLoss", "blurs", "calc_statsmaps", "keyed cache of the target statistics / per-size helpers, proved transparent: C17_gen_metameric_loss_history_independent"),
+  ("learn.perception.metameric_loss:MetamericLoss", "device", "to", "explicit device move requested by the caller"),
+  ("learn.perception.metameric_loss:MetamericLoss", "fovea_mask", "calc_statsmaps", "keyed cache of the target statistics / per-size helpers, proved transparent: C17_gen_metameric_loss_history_independent"),
+  ("learn.perception.metameric_loss:MetamericLoss", "loss_map", "visualise_loss_map", "visualisation output requested by the caller"),
+  ("learn.perception.metameric_loss:MetamericLoss", "periphery_mask", "calc_statsmaps", "keyed cache of the target statistics / per-size helpers, proved transparent: C17_gen_metameric_loss_history_independent"),
+  ("learn.perception.metameric_loss:MetamericLoss", "pyramid_maker", "calc_statsmaps", "keyed cache of the target statistics / per-size helpers, proved transparent: C17_gen_metameric_loss_history_independent"),
+  ("learn.perception.metameric_loss:MetamericLoss", "target", "__call__", "keyed cache of the target statistics / per-size helpers, proved transparent: C17_gen_metameric_loss_history_independent"),
+  ("learn.perception.metameric_loss:MetamericLoss", "target_gaze", "__call__", "keyed cache of the target statistics / per-size helpers, proved transparent: C17_gen_metameric_loss_history_independent"),
+  ("learn.perception.metameric_loss:MetamericLoss", "target_stats", "__call__", "keyed cache of the target statistics / per-size helpers, proved transparent: C17_gen_metameric_loss_history_independent"),
+  ("learn.perception.metameric_loss_uniform:MetamericLossUniform", "device", "to", "explicit device move requested by the caller"),
+  ("learn.perception.metameric_loss_uniform:MetamericLossUniform", "loss_map", "visualise_loss_map", "visualisation output requested by the caller"),
+  ("learn.perception.metameric_loss_uniform:MetamericLossUniform", "pyramid_maker", "calc_statsmaps", "keyed cache of the target statistics, proved transparent: C17_gen_metameric_loss_uniform_history_independent"),
+  ("learn.perception.metameric_loss_uniform:MetamericLossUniform", "target", "__call__", "keyed cache of the target statistics, proved transparent: C17_gen_metameric_loss_uniform_history_independent"),
+  ("learn.perception.metameric_loss_uniform:MetamericLossUniform", "target_stats", "__call__", "keyed cache of the target statistics, proved transparent: C17_gen_metameric_loss_uniform_history_independent"),
+  ("learn.perception.radially_varying_blur:RadiallyVaryingBlur", "alpha", "blur", "keyed cache of the foveation map, proved transparent for every call list: C17_gen_radial_blur_history_independent"),
+  ("learn.perception.radially_varying_blur:RadiallyVaryingBlur", "centre", "blur", "keyed cache of the foveation map, proved transparent for every call list: C17_gen_radial_blur_history_independent"),
+  ("learn.perception.radially_varying_blur:RadiallyVaryingBlur", "equi", "blur", "keyed cache of the foveation map, proved transparent for every call list: C17_gen_radial_blur_history_independent"),
+  ("learn.perception.radially_varying_blur:RadiallyVaryingBlur", "lod_fraction", "blur", "keyed cache of the foveation map, proved transparent for every call list: C17_gen_radial_blur_history_independent"),
+  ("learn.perception.radially_varying_blur:RadiallyVaryingBlur", "lod_map", "blur", "keyed cache of the foveation map, proved transparent for every call list: C17_gen_radial_blur_history_independent"),
+  ("learn.perception.radially_varying_blur:RadiallyVaryingBlur", "mode", "blur", "keyed cache of the foveation map, proved transparent for every call list: C17_gen_radial_blur_history_independent"),
+  ("learn.perception.radially_varying_blur:RadiallyVaryingBlur", "n_channels", "blur", "keyed cache of the foveation map, proved transparent for every call list: C17_gen_radial_blur_history_independent"),
+  ("learn.perception.radially_varying_blur:RadiallyVaryingBlur", "real_image_width", "blur", "keyed cache of the foveation map, proved transparent for every call list: C17_gen_radial_blur_history_independent"),
+  ("learn.perception.radially_varying_blur:RadiallyVaryingBlur", "real_viewing_distance", "blur", "keyed cache of the foveation map, proved transparent for every call list: C17_gen_radial_blur_history_independent"),
+  ("learn.perception.radially_varying_blur:RadiallyVaryingBlur", "size", "blur", "keyed cache of the foveation map, proved transparent for every call list: C17_gen_radial_blur_history_independent"),
+  ("learn.raytracing.detector:detector", "image", "intersect", "the detector accumulates hits by design (documented; clear() resets it)"),
+  ("learn.wave.models:holobeam_multiholo", "optimizer", "fit", "training state of a learned model (fit loop)"),
+  ("learn.wave.optimizers:multi_color_hologram_optimizer", "optimizer", "init_optimizer", "optimisation state, rewritten at the start of every optimize call before it is read (C07)"),
+  ("learn.wave.propagators:propagator", "channel_power", "set_laser_powers", "explicit setter"),
+  ("learn.wave.propagators:propagator", "generated_kernels", "__call__", "kernel cache with validity flags, invariant proved for every call list: C06_history_independent"),
+  ("learn.wave.propagators:propagator", "kernels", "__call__", "kernel cache with validity flags, invariant proved for every call list: C06_history_independent"),
+  ("manager.__init__:agent", "jobs", "run", "job list of the process manager"),
+  ("manager.__init__:agent", "jobs", "submit", "job list of the process manager"),
+  ("manager.__init__:agent", "results", "run", "job list of the process manager"),
+  ("tools.latex:latex", "latex_begin_dictionary", "set_latex_dictonaries", "document parser state"),
+  ("tools.latex:latex", "latex_dictionary", "set_latex_dictonaries", "document parser state"),
+  ("tools.latex:latex", "latex_end_dictionary", "set_latex_dictonaries", "document parser state"),
+  ("tools.latex:latex", "line_count", "get_line_count", "document parser state"),
+  ("tools.markdown:markdown", "line_count", "get_line_count", "document parser state"),
+  ("tools.markdown:markdown", "markdown_begin_dictionary", "set_dictonaries", "document parser state"),
+  ("tools.markdown:markdown", "markdown_dictionary", "set_dictonaries", "document parser state"),
+  ("tools.markdown:markdown", "markdown_end_dictionary", "set_dictonaries", "document parser state"),
+  ("visualize.export:PLY_object", "pnts", "draw_a_ray", "scene / figure under construction, by design"),
+  ("visualize.export:PLY_object", "tris", "draw_a_ray", "scene / figure under construction, by design"),
+  ("visualize.plotly:plotshow", "fig", "show", "scene / figure under construction, by design")
+]
+
+/-- odak keeps no module-level, class-level or function-level state besides the reviewed entries (no cache dictionaries, no memoising decorators,
+    no `global` statements) -/
+theorem C20_module_level_state_is_the_reviewed_one :
+    Gen.moduleState = reviewedModuleState.map (fun e => (e.1, e.2.1, e.2.2.1)) := by decide +kernel
+
+/-- the attributes an object carries from one call to the next (stored by a method outside `__init__` and the helpers it calls) are the reviewed ones -/
+theorem C20_instance_state_is_the_reviewed_one :
+    Gen.instanceState = reviewedInstanceState.map (fun e => (e.1, e.2.1, e.2.2.1)) := by decide +kernel
+
+/-- in particular: no function of odak is wrapped in a memoising decorator and no module binds a container that functions could fill -/
+theorem C20_no_memoising_decorators_no_module_caches :
+    (Gen.moduleState.filter (fun e => e.2.2.startsWith "decorator" || e.2.2 == "global statement" || e.2.2 == "nonlocal statement")) = [] ∧
+    (Gen.moduleState.filter (fun e => e.2.2.startsWith "module-level" && !(e.1 == "__init__" || e.1.startsWith "visualize.blender"))) = [] := by
+  decide +kernel
 
 end Odak
